@@ -17,7 +17,7 @@
    function the code uses is one definition over lists, written the way numpy's documentation
    defines it:
 
-     a[mask]  a[:, mask]  a[mask, :]  a[idx]  a[[i, j]]  a.take(idx, axis)  a[k]  a[k:]  a[:-1]
+     a[mask]  a[:, mask]  a[mask, :]  a[:, k]  a[k, :]  a[idx]  a[[i, j]]  a.take(idx, axis)  a[k]  a[k:]  a[:-1]
      np.isnan  ~  np.all  np.sum / np.nansum (axis = None, 0, 1)   * / - + on equal shapes, with a
      scalar, and of an (n, k) with an (n, 1) array (a.reshape(-1, 1))     pow(x, 2)    .T  .shape  .ndim  .size
      .reshape(-1, 1)   np.broadcast_to(v, (n, k))   np.ones(w)   np.convolve(a, v, mode="valid")
@@ -439,12 +439,16 @@ Definition v_item_cols (a k : vval) : vval :=
       if List.length mk =? c then VM (count_true mk) (map (fun r => mask_take r mk) m) else VErr
   | VM c m, VIV idx =>
       if all_lt c idx then VM (List.length idx) (map (fun r => idx_take NaN r idx) m) else VErr
+  | VM c m, VZ k =>       (* a[:, k]: one column as a 1-D array *)
+      match zidx c k with Some j => VV (mcol m j) | None => VErr end
   | _, _ => VErr
   end.
 Definition v_item_rows (a k : vval) : vval :=
   match a, k with
   | VM c m, VBV mk => if List.length mk =? List.length m then VM c (mask_take m mk) else VErr
   | VM c m, VIV idx => if all_lt (List.length m) idx then VM c (idx_take [] m idx) else VErr
+  | VM c m, VZ k =>       (* a[k, :]: one row as a 1-D array *)
+      match zidx (List.length m) k with Some i => VV (nth i m []) | None => VErr end
   | _, _ => VErr
   end.
 Definition v_take_ax (a idx ax : vval) : vval :=
